@@ -35,18 +35,23 @@ pub fn budget(prop: &str, tier: &str, samples: &Samples) -> Budget {
         "C07" => {
             let n = sc(if thorough { 60_000_000 } else { 2_000_000 });
             // + huge-table images (> 0xff00 sections, the three ways of naming the shstrtab)
-            let extra = crate::sweep::sweep_cases() + if thorough { 24 } else { 6 };
+            let extra = crate::sweep::sample_cases(samples)
+                + crate::sweep::sweep_cases()
+                + if thorough { 24 } else { 6 };
             Budget { runs: n + extra, exhaustive: 0, images: 0, base_runs: n }
         }
         #[cfg(feature = "stream")]
         "C08" => {
             let n = sc(if thorough { 60_000_000 } else { 2_000_000 });
-            let extra = crate::sweep::sweep_cases()
+            let extra = crate::sweep::sample_cases(samples)
+                + crate::sweep::sweep_cases()
                 + if thorough { crate::sweep::HUGE_CASES } else { 2 };
             Budget { runs: n + extra, exhaustive: 0, images: 0, base_runs: n }
         }
         "C17" => {
-            let ex = sc(if thorough { 100_000 } else { 4_000 });
+            let _ = sc(1);
+            let ex = crate::faults::generated_exhaustive(tier)
+                + crate::faults::sample_workloads(samples);
             let multi = sc(if thorough { 30_000_000 } else { 1_000_000 });
             Budget { runs: ex + multi, exhaustive: ex, images: 0, base_runs: ex + multi }
         }
@@ -250,7 +255,10 @@ pub fn scenario_of(prop: &str, tier: &str, seed: u64, r: u64, samples: &Samples)
             crate::equiv::build_scenario(prop, seed, r, tier, samples)
         }),
         #[cfg(feature = "stream")]
-        "C17" => Some(crate::faults::build_workload(seed, r, tier, samples)),
+        "C17" => Some(match crate::faults::sample_workload_index(r, tier, samples) {
+            Some(i) => crate::faults::build_sample_workload(seed, r, tier, samples, i),
+            None => crate::faults::build_workload(seed, r, tier, samples),
+        }),
         #[cfg(feature = "stream")]
         "C18" => Some(crate::prefix::build_image_scenario(seed, r, tier, samples).0),
         _ => {
